@@ -31,52 +31,88 @@ def design_checks(ck, tier):
 
 
 def generate(ck, tier):
-    """fault schedules = distinct fault histories of the budgeted model (liveness is checked on the same runs)"""
-    out = []
-    p1 = os.path.join(ck.dir, f"sched_b1_{tier}_{os.getpid()}.ndjson")
-    res = sc.tlc_mc(ck, "fifo_b1", mode="fifo", budget=1, fair=True, msgs="MsgsA12", init_a="{14}", init_b="{0}",
-                    sched_sink=p1, timeout=600)
-    vlib.tlc_ok(res, "fifo budget 1")
-    ck.add_tlc(res, "fifo/budget1 (liveness + single faults)")
-    singles = sc.schedules_from(p1)
-    p2 = os.path.join(ck.dir, f"sched_b2_{tier}_{os.getpid()}.ndjson")
-    # pairs: the one-message workload keeps the quick generator small; thorough uses the full workload
-    res = sc.tlc_mc(ck, "fifo_b2", mode="fifo", budget=2, fair=(tier == "thorough"),
-                    msgs="MsgsA12" if tier == "thorough" else "MsgsA2", init_a="{14}", init_b="{0}",
-                    sched_sink=p2, timeout=2400 if tier == "thorough" else 600)
-    vlib.tlc_ok(res, "fifo budget 2")
-    ck.add_tlc(res, "fifo/budget2 (pairs)")
-    pairs = [s for s in sc.schedules_from(p2) if len(s) == 2]
-    # a partially reliable channel next to the reliable one (abandonment, FORWARD-TSN): liveness of the
-    # reliable channel + single faults, FORWARD-TSN included
-    p3 = os.path.join(ck.dir, f"sched_pr_{tier}_{os.getpid()}.ndjson")
-    sc.tlc_mc_split(ck, "fifo_pr", "fifo/rel+pr budget1", p3, mode="fifo", budget=1, chans="ChansPR", msgs="MsgsTwoCh3",
-                    init_a="{14}", init_b="{0}", win=3, timeout=900)
-    mixed = sc.schedules_from(p3)
-    if tier == "thorough":
-        p4 = os.path.join(ck.dir, f"sched_pr2_{tier}_{os.getpid()}.ndjson")
-        res4 = sc.tlc_mc(ck, "fifo_pr2", mode="fifo", budget=2, fair=True, chans="ChansPR", msgs="MsgsPR2",
-                         init_a="{14}", init_b="{0}", win=3, sched_sink=p4, timeout=2400)
-        vlib.tlc_ok(res4, "fifo rel+pr budget 2")
-        ck.add_tlc(res4, "fifo/rel+pr budget2 (liveness + pairs)")
-        mixed += [s for s in sc.schedules_from(p4) if len(s) == 2]
-    global WINDOW_SCHEDS, TRIPLES, BURST_SCHEDS
-    WINDOW_SCHEDS = sc.gen_window_schedules(ck, tier)
-    # a burst of one-chunk messages with a T3 timer that marks only RtxBurst chunks per expiry (the rest is
-    # re-timed): single faults incl. an outage of the path that swallows the burst
-    p6 = os.path.join(ck.dir, f"sched_burst_{tier}_{os.getpid()}.ndjson")
-    sc.tlc_mc_split(ck, "fifo_burst", "fifo/burst of 3 one-chunk messages, RtxBurst 1", p6, mode="fifo", budget=1,
-                    msgs="MsgsA111", init_a="{14}", init_b="{0}", win=3, rtx_burst=1, max_rtx=4, timeout=600)
-    BURST_SCHEDS = sc.schedules_from(p6)
-    if tier == "thorough":
+    """fault schedules = distinct fault histories of the budgeted models (liveness is checked on the same models);
+    the independent generator runs go in parallel threads (each is one or two TLC processes)"""
+    import threading
+    d, pid = ck.dir, os.getpid()
+    box, errs = {}, []
+
+    def job(name, fn):
+        def run():
+            try:
+                box[name] = fn()
+            except Exception as e:
+                errs.append(e)
+        t = threading.Thread(target=run)
+        t.start()
+        return t
+
+    def g_singles():
+        p1 = os.path.join(d, f"sched_b1_{tier}_{pid}.ndjson")
+        res = sc.tlc_mc(ck, "fifo_b1", mode="fifo", budget=1, fair=True, msgs="MsgsA12", init_a="{14}", init_b="{0}",
+                        sched_sink=p1, timeout=600)
+        vlib.tlc_ok(res, "fifo budget 1")
+        ck.add_tlc(res, "fifo/budget1 (liveness + single faults)")
+        return sc.schedules_from(p1)
+
+    def g_pairs():
+        p2 = os.path.join(d, f"sched_b2_{tier}_{pid}.ndjson")
+        # pairs: the one-message workload keeps the quick generator small; thorough uses the full workload
+        res = sc.tlc_mc(ck, "fifo_b2", mode="fifo", budget=2, fair=(tier == "thorough"),
+                        msgs="MsgsA12" if tier == "thorough" else "MsgsA2", init_a="{14}", init_b="{0}",
+                        sched_sink=p2, timeout=2400 if tier == "thorough" else 600)
+        vlib.tlc_ok(res, "fifo budget 2")
+        ck.add_tlc(res, "fifo/budget2 (pairs)")
+        return [s for s in sc.schedules_from(p2) if len(s) == 2], res["finished"]
+
+    def g_mixed():
+        # a partially reliable channel next to the reliable one (abandonment, FORWARD-TSN): liveness of the
+        # reliable channel + single faults, FORWARD-TSN included
+        p3 = os.path.join(d, f"sched_pr_{tier}_{pid}.ndjson")
+        sc.tlc_mc_split(ck, "fifo_pr", "fifo/rel+pr budget1", p3, mode="fifo", budget=1, chans="ChansPR", msgs="MsgsTwoCh3",
+                        init_a="{14}", init_b="{0}", win=3, timeout=900)
+        mixed = sc.schedules_from(p3)
+        if tier == "thorough":
+            p4 = os.path.join(d, f"sched_pr2_{tier}_{pid}.ndjson")
+            res4 = sc.tlc_mc(ck, "fifo_pr2", mode="fifo", budget=2, fair=True, chans="ChansPR", msgs="MsgsPR2",
+                             init_a="{14}", init_b="{0}", win=3, sched_sink=p4, timeout=2400)
+            vlib.tlc_ok(res4, "fifo rel+pr budget 2")
+            ck.add_tlc(res4, "fifo/rel+pr budget2 (liveness + pairs)")
+            mixed += [s for s in sc.schedules_from(p4) if len(s) == 2]
+        return mixed
+
+    def g_window():
+        return sc.gen_window_schedules(ck, tier)
+
+    def g_burst():
+        # a burst of one-chunk messages with a T3 timer that marks only RtxBurst chunks per expiry (the rest is
+        # re-timed): single faults incl. an outage of the path that swallows the burst
+        p6 = os.path.join(d, f"sched_burst_{tier}_{pid}.ndjson")
+        sc.tlc_mc_split(ck, "fifo_burst", "fifo/burst of 3 one-chunk messages, RtxBurst 1", p6, mode="fifo", budget=1,
+                        msgs="MsgsA111", init_a="{14}", init_b="{0}", win=3, rtx_burst=1, max_rtx=4, timeout=600)
+        return sc.schedules_from(p6)
+
+    def g_triples():
+        if tier != "thorough":
+            return []
         # three faults: random behaviours of the budget-3 model (G-sim), invariants checked along the way
-        p5 = os.path.join(ck.dir, f"sched_b3_{tier}_{os.getpid()}.ndjson")
+        p5 = os.path.join(d, f"sched_b3_{tier}_{pid}.ndjson")
         r5 = sc.tlc_mc(ck, "fifo_b3_sim", mode="fifo", budget=3, fair=False, msgs="MsgsA12", init_a="{14}", init_b="{0}",
                        properties=[], sched_sink=p5, simulate=4000, depth=70, timeout=1500)
         vlib.tlc_ok(r5, "fifo budget 3 simulation")
         ck.add_tlc(r5, "fifo/budget3 simulation (4000 behaviours, depth 70)")
-        TRIPLES = [f for f in sc.schedules_from(p5) if len(f) == 3]
-    return singles, pairs, mixed, res["finished"]
+        return [f for f in sc.schedules_from(p5) if len(f) == 3]
+
+    threads = [job("singles", g_singles), job("pairs", g_pairs), job("mixed", g_mixed), job("window", g_window),
+               job("burst", g_burst), job("triples", g_triples)]
+    for t in threads:
+        t.join()
+    if errs:
+        raise errs[0]
+    global WINDOW_SCHEDS, TRIPLES, BURST_SCHEDS
+    WINDOW_SCHEDS, BURST_SCHEDS, TRIPLES = box["window"], box["burst"], box["triples"]
+    pairs, finished = box["pairs"]
+    return box["singles"], pairs, box["mixed"], finished
 
 
 WINDOW_SCHEDS = []
